@@ -34,6 +34,11 @@ class Machine:
         import numpy as np
         import emg3d
         warnings.filterwarnings('ignore')
+        try:      # no tqdm monitor threads (see runner._fresh_tqdm_locks)
+            import tqdm.std
+            tqdm.std.tqdm.monitor_interval = 0
+        except ImportError:
+            pass
         grid = emg3d.TensorMesh([np.ones(4) * 100] * 3, origin=(0, 0, 0))
         model = emg3d.Model(grid, 1.0)
         src = emg3d.TxElectricDipole((150, 250, 150, 250, 150, 250))
